@@ -5,6 +5,7 @@
 import KiraModel.Exec.SuiteUnits
 import KiraModel.Exec.SuiteParam
 import KiraModel.Exec.SuiteModulator
+import KiraModel.Exec.SuiteModSys
 
 open K.Exec
 
@@ -23,6 +24,7 @@ def suiteOf (name : String) : Option Suite :=
   | "param" => some { σ := ParamState, init := {}, step := paramStep }
   | "lfo" => some { σ := LfoSt, init := {}, step := lfoStep }
   | "tweener" => some { σ := TweenerSt, init := {}, step := tweenerStep }
+  | "modsys" => some { σ := SysSt, init := {}, step := sysStep }
   | _ => none
 
 def tokens (line : String) : List String :=
